@@ -148,6 +148,7 @@ func runC07(c *Ctx) {
 		k++
 	}
 	c.Extra["flag_sweep"] = fmt.Sprintf("%d of 4096 combinations of 12 O_* bits (step %d)", k, step)
+	mixedStackCases(c, []string{"ro(cow(mem,mem))", "ro(re:0(mem))", "ro(bp:2f64(cow(mem,mem)))", "ro(cow(ro(mem),mem))"}, map[bool]int{false: 120, true: 4000}[c.Tier == "thorough"], "ux")
 	runOSBase(c, "C07")
 	runC07OverUnion(c)
 	for i := 0; i < n; i++ {
